@@ -325,10 +325,26 @@ def main(tier_: str) -> int:
                                 n += 1
                                 if rt_bytes(bytes(m)) != 1:
                                     bad.append(f'{off}:{val:#04x}')
+                        # byte pairs that look like the start of a textual literal ("0x...", "b'") at the head of a binary field
+                        if vals == U and min(end, plen) - a >= 4:
+                            for pair in (b'0x', b'0X', b"b'"):
+                                m = bytearray(raw)
+                                m[lb.hdr + a:lb.hdr + a + 2] = pair
+                                n += 1
+                                if rt_bytes(bytes(m)) != 1:
+                                    bad.append(f'{a}:{pair!r}')
                         nmut += n
                         lines.append({'ev': 'field', 'box': lb.name, 'field': fname, 'value_class': f'bytes of {f.name} ({n} mutations)' +
                                       (f' failing offset:value {bad[:6]}' if bad else ''), 'eq': 0 if bad else 1})
         out.coverage['legal_byte_mutations'] = nmut
+        for payload in (b'0x48656c6c6f', b'0x', b'0X4142', b"b'00'", b'hx=4142', b'b64=QUJD'):
+            em = mp4.EventMessageBox(version=0, flags=0, scheme_id_uri='urn:x', value='v', timescale=100, presentation_time_delta=1,
+                                     presentation_time=1, event_duration=1, event_id=1, data=payload)
+            lines.append({'ev': 'field', 'box': 'emsg', 'field': 'data (literal-looking payload)', 'value_class': payload.decode('ascii'),
+                          'eq': rt_box(em, lambda b: getattr(b.data, 'data', b.data) == payload)})
+            ps = mp4.ContentProtectionSpecificBox(version=1, flags=0, system_id=bytes(range(16)), key_ids=[b'0x' + bytes(14)], data=payload)
+            lines.append({'ev': 'field', 'box': 'pssh', 'field': 'data / key id (literal-looking payload)', 'value_class': payload.decode('ascii'),
+                          'eq': rt_box(ps, lambda b: len(b.key_ids or []) == 1 and len(b.data or b'') == len(payload))})
         for i, ln in enumerate(lines):
             ln['tid'] = i + 1
         vs, st = validate_trace('BoxTreeTrace', lines, workdir=d, chunk=400, parallel=10)
